@@ -39,7 +39,7 @@ def run_box(ck, res, n_cases, goals, n_interval, torch, C, diff, r, dist):
         scale = 1 + max(abs(v) for v in u)
         for i, (x, y) in enumerate(rows[:-3]):
             g = Gp.jet((0, 0), [x, y])
-            if not enga.close(u[i], g, scale):
+            if not enga.close(u[i], g, scale, rel=enga.EXACT):
                 edge = 'x0' if x == x0 else 'x1' if x == x1 else 'y0' if y == y0 else 'y1'
                 ck.fail(f'bvp2d/edge-{edge}', f'DirichletBVP2D: value {u[i]!r} at edge point ({x},{y}) differs from the prescribed {g!r}', dict(inp, point=[x, y]), expected=g, actual=u[i])
         dist['bvp2d'] = dist.get('bvp2d', 0) + 1
@@ -97,7 +97,7 @@ def run_ibvp(ck, res, n_cases, goals, n_interval, torch, C, diff, r, dist):
         for i, (x, t) in enumerate(rows[:-3]):
             if t == tmin:
                 g = Gp.jet((0, 0), [x, t])
-                if not enga.close(u[i], g, scale):
+                if not enga.close(u[i], g, scale, rel=enga.EXACT):
                     ck.fail(f'ibvp-{mode}/initial', f'IBVP1D {mode}: u(x,t_min) = {u[i]!r} differs from the initial profile {g!r} at x = {x}', dict(inp, point=[x, t]), expected=g, actual=u[i])
             for end, xe, kind in (('left', xmin, mode[0]), ('right', xmax, mode[1])):
                 if x == xe:
@@ -105,7 +105,7 @@ def run_ibvp(ck, res, n_cases, goals, n_interval, torch, C, diff, r, dist):
                         g, got = Gp.jet((0, 0), [x, t]), u[i]
                     else:
                         g, got = Gp.jet((1, 0), [x, t]), d[i]
-                    if not enga.close(got, g, scale * 4):
+                    if not enga.close(got, g, scale * 4, rel=enga.EXACT):
                         ck.fail(f'ibvp-{mode}/{end}', f'IBVP1D {mode}: {"value" if kind == "d" else "x-derivative"} at the {end} end is {got!r}, prescribed {g!r} (t = {t})',
                                 dict(inp, point=[x, t]), expected=g, actual=got)
         dist[f'ibvp_{mode}'] = dist.get(f'ibvp_{mode}', 0) + 1
